@@ -8,6 +8,7 @@
 #include <pthread.h>
 
 #include "ops.h"
+#include "q120h.h"
 #include "oracle.h"
 
 typedef enum { CL_BITWISE, CL_MODQ, CL_ROUND_ZNX64, CL_ROUND_TNX32, CL_TORUS, CL_FLOAT } pclass_t;
@@ -351,6 +352,16 @@ static void recycled_tables_case(unsigned seq) {
 void run_C07(void) {
   const int th = G.thorough;
   for (unsigned seq = 0; seq < (th ? 1500u : 96u); seq++) recycled_tables_case(seq);
+  // q120 product kernels: reference vs AVX2 at EVERY length 0..10000
+  for (int k = 0; k < N_KERNELS; k++)
+    for (uint64_t e0 = 0; e0 <= 10000; e0 += 500) {
+      char key[128];
+      snprintf(key, sizeof key, "%s|every-ell,ref~avx2|modq", q120_kernel_name[k]);
+      const uint64_t e1 = e0 + 499 > 10000 ? 10000 : e0 + 499;
+      if (!case_begin(key, "ell=%" PRIu64 "..%" PRIu64, e0, e1)) continue;
+      cnt("pairwise_ell_values", q120_pairwise_ell_check((q120_kernel_t)k, e0, e1, (int)((e0 / 500 + (uint64_t)k) % QF_N), (int)((e0 / 500 + 5) % QF_N), crng()));
+      case_end(1);
+    }
   for (size_t ni = 0; ni < N_ALL_N; ni++) {
     const uint64_t N = ALL_N[ni];
     const unsigned seeds = th ? (N <= 1024 ? 300 : (N <= 8192 ? 60 : 16)) : (N <= 256 ? 16 : (N <= 4096 ? 6 : 2));
